@@ -5,7 +5,7 @@ import os, subprocess, json, time, hashlib
 
 HERE = os.path.dirname(os.path.abspath(__file__))
 ROOT = os.path.dirname(HERE)
-OUT = os.path.join(ROOT, 'out')
+OUT = os.environ.get('VP_OUT') or os.path.join(ROOT, 'out')
 REPO_INC = os.environ.get('VP_REPO_INC', '/repo/include')
 
 REPLAY_OF_JOB = {}   # job name -> replay harness base name (filled by recipes)
